@@ -1182,3 +1182,16 @@ mod tests {
         assert_eq!(script.find_match(&sym(b"fxxx")).unwrap().0, 2);
     }
 }
+
+/// Accessor used by `verif_api::versions`. Adds no behaviour.
+#[cfg(feature = "verif")]
+impl<'data> RegularVersionScript<'data> {
+    /// `find_match` as (version index, is_local).
+    pub(crate) fn verif_find_match(
+        &self,
+        name: &PreHashed<UnversionedSymbolName>,
+    ) -> Option<(usize, bool)> {
+        self.find_match(name)
+            .map(|(i, section)| (i, matches!(section, VersionRuleSection::Local)))
+    }
+}
